@@ -272,7 +272,7 @@ PROPS = {
     "C15": dict(
         modules=["SpatialId.Props.C15", "SpatialId.Props.Tie.Shift", "SpatialId.Props.Tie.Api", "SpatialId.Props.C01", "SpatialId.Props.C02", "SpatialId.Props.C03", "SpatialId.Props.C04",
                  "SpatialId.Props.C05", "SpatialId.Props.C08", "SpatialId.Props.C10", "SpatialId.Props.C11", "SpatialId.Props.C13", "SpatialId.Props.Facts.Point"],
-        families=[("reject", 40000, 300000), ("newpt", 15000, 100000), ("points", 5000, 40000), ("tiles", 1000, 5000),
+        families=[("objset", 4000, 40000), ("reject", 40000, 300000), ("newpt", 15000, 100000), ("points", 5000, 40000), ("tiles", 1000, 5000),
                   ("qv", 1500, 8000), ("fit", 300, 2500)],
         trusted_base=COMMON_TB + F64_TB + ["Go strconv.ParseInt/Atoi and strings.Split semantics are modelled by parseInt64/splitSlash "
                                             "and compared on every malformed case, not proved"],
@@ -362,7 +362,7 @@ PROPS = {
     ),
     "C20": dict(
         modules=["SpatialId.Props.C20", "SpatialId.Props.C20Vec", "SpatialId.Props.C20Err", "SpatialId.Props.Facts.Quat"],
-        families=[("sets", 30000, 200000), ("ashift", 20000, 200000), ("combLattice", 1, 1), ("vec", 30000, 300000),
+        families=[("objset", 3000, 30000), ("sets", 30000, 200000), ("ashift", 20000, 200000), ("combLattice", 1, 1), ("vec", 30000, 300000),
                   ("vecnum", 20000, 200000)],
         trusted_base=COMMON_TB + F64_TB,
         assumptions=["|index * 2^shift| < 2^62 (no int64 overflow), |shift| < 63"],
